@@ -25,6 +25,29 @@ def run(rep, tier):
     rep.info("panic_sites", len(sites))
     stats = sites_to_obligations(rep, r, sites, ROWS)
     rep.info("site_stats", stats)
+    # R14.b: the row above is backed by evaluating the assembler on every documented mnemonic with every
+    # operand shape (0 to 4 operands, all kinds): no path may panic (e.g. index past the operand list)
+    import asmmodel
+    import symex
+    rb = rep.rule("R14.b", "assemble_internal evaluated per documented mnemonic and operand shape (0-4 operands): every path returns Ok or Err", floor=92)
+    F = cx.F
+    if asmmodel.internal_entry(F) is None:
+        rep.ob(rb, "entry", False, "the function turning parsed instructions into Insn values", found="not found")
+    else:
+        ev = symex.Evaluator(F)
+        ev.unroll = True
+        for name in sorted(asmmodel.reference_table()):
+            bad = []
+            for sh in asmmodel.SHAPES:
+                res = asmmodel.resolve(F, ev, name, sh)
+                if res is None:
+                    bad.append("%s: not evaluable" % ("".join(sh) or "-"))
+                    continue
+                for x in res:
+                    if x["res"] in ("panic", "?"):
+                        bad.append("%s: %s" % ("".join(sh) or "-", "a panicking path" if x["res"] == "panic" else "a path that is neither Ok nor Err"))
+                        break
+            rep.ob(rb, "mnemonic=%s" % name, not bad, "`%s` with every operand shape" % name, expected="Ok or Err on every path", found=bad[:4] or "%d shapes" % len(asmmodel.SHAPES))
     rep.trust("rustc front end, MIR construction and constant evaluation",
               "combine 4.6 parser combinators (their own panics and termination are not analysed)",
               "external callees not on the panicking-primitive list are assumed not to panic (listed in evidence)",
